@@ -6,6 +6,17 @@ fn usage() -> ! {
 }
 
 fn main() {
+    // a panic that escapes every guard is a defect of this machinery: say so and exit 2 (never 101, never silently)
+    let r = std::panic::catch_unwind(real_main);
+    if r.is_err() {
+        let panics = utpverif::engine::take_panics();
+        eprintln!("ENGINE-ERROR: uncaught panic in the harness: {}", panics.join(" ; "));
+        println!("ENGINE-ERROR: uncaught panic in the harness: {}", panics.join(" ; "));
+        std::process::exit(2);
+    }
+}
+
+fn real_main() {
     let args: Vec<String> = std::env::args().collect();
     if args.len() < 2 {
         usage();
